@@ -37,6 +37,15 @@ Definition SAFE (T : list Z) : Prop := FR T /\ (T = em \/ nth z T 0 = 0 \/ T = c
 
 Lemma INV_safe T F c : INV T F c -> SAFE T.
 Proof. intros (FT & _ & _ & [(H & _)|[H|(H & _)]] & _); (split; [exact FT|]); [left | right; left | right; right]; exact H. Qed.
+Lemma SAFE_INV T : SAFE T -> INV T T T.
+Proof.
+  intros [FT H]. split; [exact FT|]. split; [exact FT|]. split; [exact FT|]. split.
+  - destruct H as [->|[H| ->]].
+    + destruct (Z.eq_dec (nth z em 0) 0) as [E|E]; [right; left; exact E | left; auto].
+    + right; left; exact H.
+    + right; right. split; [reflexivity|]. auto.
+  - intro q. left. intros i _. reflexivity.
+Qed.
 Lemma FR_cF : FR cF. Proof. split; [exact HcF | auto]. Qed.
 Lemma INV_init : INV em em em.
 Proof. split; [exact FRem|]. split; [exact FRem|]. split; [exact FRem|]. split.
@@ -383,7 +392,7 @@ Set Default Proof Using "upos Hem HcF Hlow HzS HaccS FRem H0 Hmids".
 
 Definition att_ok (T : list Z) (kf : option nat) (res : res unit * (list Z * list Z * list Z) * list write) : Prop :=
   let '(r, (T', F', c'), ex) := res in
-  T' = apply_ws T ex /\ (forall i, SAFE (apply_ws T (firstn i ex))) /\ INV T' F' c' /\ (r = Ok tt -> T' = cF) /\ Forall cmd_ok ex /\ (kf = None -> r = Ok tt).
+  T' = apply_ws T ex /\ (forall i, SAFE (apply_ws T (firstn i ex))) /\ INV T' F' c' /\ (r = Ok tt -> T' = cF) /\ Forall cmd_ok ex /\ (kf = None -> r = Ok tt) /\ F' = T' /\ c' = T'.
 
 Lemma safe_app T ex1 ex2 : (forall i, SAFE (apply_ws T (firstn i ex1))) ->
   (forall i, SAFE (apply_ws (apply_ws T ex1) (firstn i ex2))) -> forall i, SAFE (apply_ws T (firstn i (ex1 ++ ex2))).
@@ -396,7 +405,7 @@ Qed.
 Lemma mids_loop f : forall ms cs c, steps c ms cs -> chain_mid c cs -> forall T kf,
   INV T c c -> nth z c 0 = 0 -> phL (last_cache c cs) = Ok cF ->
   (forall x, (x / u)%nat <> uz -> nth x (last_cache c cs) 0 = nth x cF 0) ->
-  att_ok T kf (run_attempt u n T c c (ms ++ [phL]) kf f).
+  att_ok T kf (run_attempt u n (fun x => x) T c c (ms ++ [phL]) kf f).
 Proof.
   intros ms cs c Hst. induction Hst as [c | c ph phs c1 cs Hp Hs IH]; intros Hch T kf HI Hz HL Hout.
   - cbn [last_cache] in HL, Hout. cbn [app run_attempt]. rewrite HL.
@@ -404,23 +413,23 @@ Proof.
     destruct (commit_exec T c kf f T1 F1 ex1 r1 HI Hz Hout E) as (A1 & A2 & A3 & A4 & A5 & A6).
     destruct r1 as [k'|].
     + cbn [run_attempt]. unfold att_ok. rewrite app_nil_r. destruct (A4 ltac:(congruence)) as [B1 B2]. subst F1.
-      split; [exact A1|]. split; [exact A2|]. split; [exact A3|]. split; [intros _; exact B1|]. split; [exact A5 | reflexivity].
-    + unfold att_ok. split; [exact A1|]. split; [exact A2|]. split; [exact A3|]. split; [discriminate|]. split; [exact A5|]. intro Hk. specialize (A6 Hk). discriminate.
+      split; [exact A1|]. split; [exact A2|]. split; [exact A3|]. split; [intros _; exact B1|]. split; [exact A5|]. split; [reflexivity|]. split; congruence.
+    + unfold att_ok. split; [exact A1|]. split; [exact A2|]. split; [apply SAFE_INV; rewrite A1; specialize (A2 (length ex1)); rewrite firstn_all in A2; exact A2|]. split; [discriminate|]. split; [exact A5|]. split; [intro Hk; specialize (A6 Hk); discriminate | split; reflexivity].
   - inversion Hch as [|? ? ? Hm Hch']; subst. cbn [last_cache] in HL, Hout. cbn [app run_attempt]. rewrite Hp.
     pose proof (phase_step T c c1 HI Hm) as HI1. assert (Hz1 : nth z c1 0 = 0) by (destruct Hm as (_ & E & _); congruence).
     destruct (exec_sync n (sync_cmds u c c1) T c kf f) as [[[T1 F1] ex1] r1] eqn:E.
     destruct (sync_exec T c c1 kf f T1 F1 ex1 r1 HI1 Hz1 E) as (A1 & A2 & A3 & A4 & A5 & A6).
     destruct r1 as [k'|].
     + rewrite (A4 ltac:(congruence)) in *. specialize (IH Hch' T1 k' A3 Hz1 HL Hout).
-      destruct (run_attempt u n T1 c1 c1 (phs ++ [phL]) k' f) as [[r2 [[T2 F2] c2]] ex2]. unfold att_ok in *.
-      destruct IH as (B1 & B2 & B3 & B4 & B5 & B6). split; [rewrite apply_ws_app, <- A1; exact B1|].
+      destruct (run_attempt u n (fun x => x) T1 c1 c1 (phs ++ [phL]) k' f) as [[r2 [[T2 F2] c2]] ex2]. unfold att_ok in *.
+      destruct IH as (B1 & B2 & B3 & B4 & B5 & B6 & B7). split; [rewrite apply_ws_app, <- A1; exact B1|].
       split; [apply safe_app; [exact A2 | rewrite <- A1; exact B2]|]. split; [exact B3|]. split; [exact B4|]. split; [apply Forall_app; auto|].
-      intro Hk. apply B6. specialize (A6 Hk). congruence.
-    + unfold att_ok. split; [exact A1|]. split; [exact A2|]. split; [exact A3|]. split; [discriminate|]. split; [exact A5|]. intro Hk. specialize (A6 Hk). discriminate.
+      split; [|exact B7]. intro Hk. apply B6. specialize (A6 Hk). congruence.
+    + unfold att_ok. split; [exact A1|]. split; [exact A2|]. split; [apply SAFE_INV; rewrite A1; specialize (A2 (length ex1)); rewrite firstn_all in A2; exact A2|]. split; [discriminate|]. split; [exact A5|]. split; [intro Hk; specialize (A6 Hk); discriminate | split; reflexivity].
 Qed.
 
 (* reader_ok is preserved by any attempt, every tag memory on the way is safe, a completed attempt leaves cF *)
-Theorem attempt_ok T F c kf f : INV T F c -> att_ok T kf (run_attempt u n T F c (ph0 :: mids ++ [phL]) kf f).
+Theorem attempt_ok T F c kf f : INV T F c -> att_ok T kf (run_attempt u n (fun x => x) T F c (ph0 :: mids ++ [phL]) kf f).
 Proof.
   intro HI. pose proof HI as (_ & _ & Fc & _). destruct (H0 c (proj1 Fc)) as (c1 & P0 & Z0).
   destruct (start_step T F c c1 HI Z0) as [HI1 Hz1]. pose proof HI1 as (_ & _ & Fc1 & _).
@@ -430,11 +439,11 @@ Proof.
   destruct (sync_exec T F c1 kf f T1 F1 ex1 r1 HI1 Hz1 E) as (A1 & A2 & A3 & A4 & A5 & A6).
   destruct r1 as [k'|].
   - rewrite (A4 ltac:(congruence)) in *. pose proof (mids_loop f mids cs c1 Hst Hch T1 k' A3 Hz1 HL Hout) as IH.
-    destruct (run_attempt u n T1 c1 c1 (mids ++ [phL]) k' f) as [[r2 [[T2 F2] c2]] ex2]. unfold att_ok in *.
-    destruct IH as (B1 & B2 & B3 & B4 & B5 & B6). split; [rewrite apply_ws_app, <- A1; exact B1|].
+    destruct (run_attempt u n (fun x => x) T1 c1 c1 (mids ++ [phL]) k' f) as [[r2 [[T2 F2] c2]] ex2]. unfold att_ok in *.
+    destruct IH as (B1 & B2 & B3 & B4 & B5 & B6 & B7). split; [rewrite apply_ws_app, <- A1; exact B1|].
     split; [apply safe_app; [exact A2 | rewrite <- A1; exact B2]|]. split; [exact B3|]. split; [exact B4|]. split; [apply Forall_app; auto|].
-    intro Hk. apply B6. specialize (A6 Hk). congruence.
-  - unfold att_ok. split; [exact A1|]. split; [exact A2|]. split; [exact A3|]. split; [discriminate|]. split; [exact A5|]. intro Hk. specialize (A6 Hk). discriminate.
+    split; [|exact B7]. intro Hk. apply B6. specialize (A6 Hk). congruence.
+  - unfold att_ok. split; [exact A1|]. split; [exact A2|]. split; [apply SAFE_INV; rewrite A1; specialize (A2 (length ex1)); rewrite firstn_all in A2; exact A2|]. split; [discriminate|]. split; [exact A5|]. split; [intro Hk; specialize (A6 Hk); discriminate | split; reflexivity].
 Qed.
 End Retry.
 Set Default Proof Using "Type".
